@@ -97,6 +97,9 @@ def binop (j : Json) : Json :=
     obj [("L", optRlaJ (x.mapValues (fun v => f c v))), ("S", obj [("decoded", toJson (a.map (fun v => f c v))), ("valid", toJson true)])]
   | "sum" =>
     obj [("L", toJson x.sum), ("S", toJson a.sum)]
+  | "hist" =>     -- np.histogram(rla, bins=3, range=(0, 3)) on values 0, 1, 2: one bin per value
+    obj [("L", toJson ([0, 1, 2].map (fun (c : Int) => x.weightedCount (fun v => v == c)))),
+         ("S", toJson ([0, 1, 2].map (fun (c : Int) => a.countP (fun v => v == c))))]
   | "concat" =>
     let parts := jIntRows (fld j "parts")
     let rs := parts.map (fromArray (fun p q => p != q))
